@@ -89,6 +89,14 @@ Fixed == <<
   Single("key-empty", "any", << E("", S(<<"x">>)) >>),
   Single("value-is-number-bool", "ok", << E("a", Raw("5")), E("b", Raw("true")), E("c", Raw("-3")), E("d", Raw("1.5")) >>),
   Single("empty-locale", "ok", <<>>),
+  Double("plural-forms-all-null-in-locale", "any", << E("p_one", S(<<"x">>)), E("p_other", S(<<"y">>)) >>, << E("p_one", Raw("null")), E("p_other", Raw("null")) >>),
+  Double("plural-one-form-null-in-locale", "any", << E("p_one", S(<<"x">>)), E("p_other", S(<<"y">>)) >>, << E("p_one", Raw("null")), E("p_other", S(<<"z">>)) >>),
+  Double("range-branch-null", "any", << E("r", RangeSeq(<<>>, << Br(<<"x">>, <<"1">>), Fb(<<"y">>) >>)) >>, << E("r", Raw("null")) >>),
+  Double("group-null-in-locale", "ok", << E("g", MapNode(<< E("s", S(<<"x">>)), E("p_one", S(<<"a">>)), E("p_other", S(<<"b">>)) >>)) >>, << E("g", Raw("null")) >>),
+  Single("key-is-rust-keyword", "any", << E("type", S(<<"x">>)), E("fn", S(<<"y">>)) >>),
+  Single("key-named-like-generated-item", "any", << E("Locale", S(<<"x">>)), E("I18nKeys", S(<<"y">>)), E("builders", S(<<"z">>)), E("subkeys", S(<<"w">>)) >>),
+  Single("var-named-like-internal", "any", << E("a", S(<<"LB","LB","l","o","c","a","l","e","RB","RB","SP","LB","LB","US","US","f","o","r","m","a","t","t","e","r","RB","RB">>)) >>),
+  Single("var-and-comp-same-name", "any", << E("a", S(<<"LB","LB","b","RB","RB","LT","b","GT","x","LT","SL","b","GT">>)) >>),
   Double("subkey-mismatch", "err", << E("g", MapNode(<< E("s", S(<<"x">>)) >>)) >>, << E("g", S(<<"y">>)) >>),
   Double("range-type-mismatch", "err", << E("r", RangeSeq(<<"u","8">>, << Br(<<"x">>, <<"1">>), Fb(<<"y">>) >>)) >>,
                                          << E("r", RangeSeq(<<"i","8">>, << Br(<<"x">>, <<"1">>), Fb(<<"y">>) >>)) >>),
